@@ -44,10 +44,10 @@ def run(ctx):
 
 def stage_a(ctx, procs):
     mn, ml = ctx.pick((3, 2), (3, 3))
-    cfg = c11.walk_cfg(os.path.join(tlc.BUILD, 'LvsTree_walk_c12_%s.cfg' % ctx.tier), mn, ml,
+    cfg = c11.walk_cfg(K.scratch('LvsTree_walk_c12_%s.cfg' % ctx.tier), mn, ml,
                        invariants=['WalkEqualsRec', 'WalkEqualsDocumented', 'ContextRestored', 'CarriedKept'])
-    dp = c11.walk_cfg(os.path.join(tlc.BUILD, 'LvsTree_walk_c12_d.cfg'), 3, 2, dev=True, invariants=['WalkEqualsDocumented'])
-    wp = c11.walk_cfg(os.path.join(tlc.BUILD, 'LvsTree_walk_c12_w.cfg'), 3, 2, invariants=['W_PreboundUsed'])
+    dp = c11.walk_cfg(K.scratch('LvsTree_walk_c12_d.cfg'), 3, 2, dev=True, invariants=['WalkEqualsDocumented'])
+    wp = c11.walk_cfg(K.scratch('LvsTree_walk_c12_w.cfg'), 3, 2, invariants=['W_PreboundUsed'])
     res = K.par([lambda: tlc.run('LvsTree', cfg, coverage=True, workers=ctx.pick(4, 8)),
                  lambda: tlc.run('LvsTree', dp, workers=1, heavy=False),
                  lambda: tlc.run('LvsTree', wp, workers=1, heavy=False),
